@@ -191,6 +191,7 @@ pub fn accept_encoding(data: &[u8]) -> Vec<(&'static str, Fail)> {
         earlier_levels: if m % 5 == 0 { vec![(m as u32 / 5) % 10] } else { vec![] },
         chunk_last: m % 2 == 0,
         write_mode: m % 3,
+        more_lines: vec![],
     };
     collect("C17", c16::check_c17(&c, &mut acc), &mut out);
     out
